@@ -4,6 +4,7 @@ import (
 	"bytes"
 	"errors"
 	"fmt"
+	"time"
 
 	"github.com/talostrading/sonic/codec/websocket"
 	"github.com/talostrading/sonic/sonicerrors"
@@ -334,8 +335,9 @@ func init() {
 			"Close frames and protocol violations are not part of conforming streams here (C08, C15)",
 			"the sampled real-socket variant is covered by C17/C18's socket workloads",
 		},
-		NumCases: func(tier, build string) int { return vf.Tiered(tier, 400, 30000) },
-		Floor:    func(tier string) int { return vf.Tiered(tier, 100, 2000) },
-		Run:      runC06,
+		NumCases:    func(tier, build string) int { return vf.Tiered(tier, 400, 30000) },
+		Floor:       func(tier string) int { return vf.Tiered(tier, 100, 2000) },
+		CaseTimeout: 60 * time.Second,
+		Run:         runC06,
 	})
 }
